@@ -87,11 +87,11 @@ Vst_Step(n, s, x) == [s EXCEPT !.w = Wel_Step(n, @, x), !.last = x]
 Vst_Out(n, s) == LET sd == Wel_Out(n, s.w) IN
                  IF sd = MNone THEN MNone
                  ELSE IF sd[1] = "q" THEN MQ(s.last)                       \* std = 0
-                 ELSE MF(FDiv(FFromQ(s.last), VF(sd)))
+                 ELSE MF(SignedSqrt(s.last, sd[2]))
 Vsct_Out(n, s) == LET sd == Wel_Out(n, s.w) IN
                   IF sd = MNone THEN MNone
                   ELSE IF sd[1] = "q" THEN MQ(QZero)
-                  ELSE MF(FDiv(FFromQ(QSub(s.last, s.w.mean)), VF(sd)))
+                  ELSE MF(SignedSqrt(QSub(s.last, s.w.mean), sd[2]))
 
 (* HLNormalizer: pop, rescan if the evicted value touched the extent, then extend *)
 HL_Init(n) == [q |-> <<>>, min |-> QZero, max |-> QZero, last |-> QZero, init |-> TRUE, p |-> FALSE]
